@@ -50,7 +50,19 @@ func c16gFprint(w io.Writer, a ...interface{}) (int, error) {
 	}
 	return 0, nil
 }
-func c16gFprintln(w io.Writer, a ...interface{}) (int, error) { return 0, nil }
+func c16gFprintln(w io.Writer, a ...interface{}) (int, error) {
+	if len(a) == 5 {
+		// the organism header: fitness, generation, highest fitness, champion-child flag, genome id
+		c16Text.lines = append(c16Text.lines, c16TextLine{key: "organism", toks: a})
+	}
+	return 0, nil
+}
+func c16gFscanln(r io.Reader, a ...interface{}) (int, error) {
+	c16Text.rpos, c16Text.tpos = 1, 0 // the header is the first line of the organism's text
+	return c16gFscanf(r, "", a...)
+}
+func c16gBufferBytes(b *bytes.Buffer) []byte { return nil }
+func c16gNewBuffer(b []byte) *bytes.Buffer   { return new(bytes.Buffer) }
 
 func c16gNewScanner(r io.Reader) *bufio.Scanner            { return new(bufio.Scanner) }
 func c16gScannerSplit(s *bufio.Scanner, f bufio.SplitFunc) {}
@@ -137,5 +149,34 @@ func VC16_WireGenome() {
 	vAssert(sameGenes(s0, s1), "C16 wire: the decoded genome has the same genes in the same order")
 	vAssert(sameTraits(s0, s1), "C16 wire: the decoded genome has the same traits")
 	wfCheck(got, "C16 wire: decoded genome")
+	vReach("end")
+}
+
+// an organism's binary form (what the goroutines hand to the gob encoder): header line + genome text
+func VC16_WireOrganism() {
+	c16Text.lines, c16Text.rpos, c16Text.tpos = nil, 0, 0
+	cfg := tmplCfg{outputs: 1, hidden: 1, genes: 2, traits: 1, params: 8, symRecur: true, symEnable: true, links: [][2]int{{0, 3}, {3, 2}}}
+	g := tGenome("g", 5, cfg)
+	o := &Organism{Genotype: g}
+	o.Fitness, o.highestFitness = vFloat("fitness"), vFloat("highestFitness")
+	o.Generation = vInt("generation")
+	vAssume(vAnd(o.Generation >= 0, o.Generation <= 100000))
+	o.isPopulationChampionChild = vBool("isPopulationChampionChild")
+	data, err := o.MarshalBinary()
+	vAssume(err == nil)
+	got := &Organism{}
+	err = got.UnmarshalBinary(data)
+	vAssert(err == nil, "C16 wire: an organism's binary form reads back without error")
+	if err != nil {
+		return
+	}
+	vAssert(vAnd(got.Fitness == o.Fitness, got.highestFitness == o.highestFitness), "C16 wire: the decoded organism has the fitness values written")
+	vAssert(vAnd(got.Generation == o.Generation, got.isPopulationChampionChild == o.isPopulationChampionChild), "C16 wire: the decoded organism has the generation and the champion-child flag written")
+	vAssert(got.Genotype != nil && got.Genotype.Id == g.Id, "C16 wire: the decoded organism's genome has the original's id")
+	if got.Genotype == nil {
+		return
+	}
+	s0, s1 := snap(g), snap(got.Genotype)
+	vAssert(sameNodes(s0, s1) && sameGenes(s0, s1) && sameTraits(s0, s1), "C16 wire: the decoded organism carries the same genome")
 	vReach("end")
 }
